@@ -261,6 +261,7 @@ def generate(ctx):
         case['layout'] = rng.choice(['C', 'C', 'F', 'T', 'sub'])
         case['zero'] = rng.random() < 0.15
         # type labels: default letters, a permutation of them, or other names (several arrays of one rank with different labels in one process)
-        case['types'] = rng.choice([None, None, rng.sample(['A', 'B', 'C', 'D'][:case['rank']], case['rank']), ['poly', 'B', 'solvent', 'D4'][:case['rank']]])
+        case['types'] = rng.choice([None, None, rng.sample(['A', 'B', 'C', 'D'][:case['rank']], case['rank']), ['poly', 'B', 'solvent', 'D4'][:case['rank']],
+                                    [1, 0, 3, 2][:case['rank']] if case['rank'] != 3 else [2, 0, 1], [10, 20, 30, 40][:case['rank']], [1, 2, 3, 4][:case['rank']]])      # integer labels that are not their positions
         ctx.case('ma', case, True, tags=['zero' if case['zero'] else 'nonzero', 'rank:%d' % case['rank'], 'sp:' + case['sp'], 'dirs:' + case['dirs'][0], 'layout:' + case['layout']])
         suite_ma(ctx, case)
